@@ -35,6 +35,8 @@ type Solver struct {
 	Queries int
 	Time    time.Duration
 	Errors  []string
+	SendTime time.Duration
+	SentBytes int64
 	Log     io.Writer
 	tmo     int
 }
@@ -91,7 +93,10 @@ func (s *Solver) send(str string) {
 	if s.Log != nil {
 		io.WriteString(s.Log, str)
 	}
+	t0 := time.Now()
 	io.WriteString(s.in, str)
+	s.SendTime += time.Since(t0)
+	s.SentBytes += int64(len(str))
 }
 
 // sync sends an echo marker and collects every line up to it.
